@@ -174,6 +174,23 @@ theorem fnm_globEscape (s : Str) : ∀ t, fnm (globEscape s) t = true ↔ t = s 
           · rw [h]
         · intro h; injection h with h1' h2'; exact ⟨Or.inr h1'.symm, h2'⟩
 
+/-- the same with the leading-period rule of `fnmatch(…, FNM_PERIOD)`: an escaped name still matches exactly itself -/
+theorem fnmatch_globEscape (s t : Str) : fnmatch (globEscape s) t = true ↔ t = s := by
+  have key := fnm_globEscape s t
+  unfold fnmatch
+  split
+  · exact key
+  · exact key
+  · -- the name starts with a period, the pattern neither with `.` nor with `\.`: then `s` does not start with a period
+    rename_i c cs hno1 hno2
+    constructor
+    · intro h; cases h
+    · intro h
+      exfalso
+      subst h
+      exact hno1 (globEscape cs) (by simp [globEscape, escChar])
+  · exact key
+
 theorem fnm_literal (pat : Str) (h : hasMeta pat = false) : ∀ s, fnm pat s = true ↔ s = pat := by
   induction pat with
   | nil => intro s; cases s <;> simp [fnm]
